@@ -1028,15 +1028,28 @@ void mmd_export_token_html(DString * out, const char * source, token * t, scratc
 			pad(out, 2, scratch);
 			print_const("<div class=\"TOC\">\n");
 
+			// Find the line holding the TOC marker (a list marker may come first)
+			temp_token = t->child;
+
+			while (temp_token && temp_token->child == NULL) {
+				temp_token = temp_token->next;
+			}
+
+			if (temp_token == NULL) {
+				break;
+			}
+
+			temp_token = temp_token->child;
+
 			// Define range
-			if (t->child->child->type == TOC) {
+			if (temp_token->type == TOC) {
 				temp_short = 1;
 				temp_short2 = 6;
 			} else {
-				temp_short = source[t->start + 6] - '0';
+				temp_short = source[temp_token->start + 6] - '0';
 
-				if (t->child->child->type == TOC_RANGE) {
-					temp_short2 = source[t->start + 8] - '0';
+				if (temp_token->type == TOC_RANGE) {
+					temp_short2 = source[temp_token->start + 8] - '0';
 				} else {
 					temp_short2 = temp_short;
 				}
